@@ -241,8 +241,17 @@ def rule_shortcut_injective(ctx):
                 if v is not pyeval.UNK:
                     local_dicts[a_.targets[0].id] = v
         cands = []
+        # names for the argument: the parameter itself and locals assigned from it (name = value.lower())
+        names_ = {param}
+        for a_ in ast.walk(fn):
+            if isinstance(a_, ast.Assign) and len(a_.targets) == 1 and isinstance(a_.targets[0], ast.Name):
+                v_ = a_.value
+                if isinstance(v_, ast.Call) and isinstance(v_.func, ast.Attribute) and v_.func.attr in ('lower', 'strip', 'upper') and not v_.args:
+                    v_ = v_.func.value
+                if isinstance(v_, ast.Name) and v_.id in names_:
+                    names_.add(a_.targets[0].id)
         for c in ast.walk(fn):
-            if isinstance(c, ast.Compare) and isinstance(c.left, ast.Name) and c.left.id == param and len(c.ops) == 1:
+            if isinstance(c, ast.Compare) and isinstance(c.left, ast.Name) and c.left.id in names_ and len(c.ops) == 1:
                 k0 = c.comparators[0]
                 if isinstance(c.ops[0], ast.Eq) and isinstance(k0, ast.Constant) and isinstance(k0.value, str):
                     cands.append(k0.value)
